@@ -26,6 +26,7 @@ def run(ctx):
     qharness.bounded_store_pool_requeue_scenario(ctx)
     qharness.bounded_store_pool_announce_scenario(ctx)
     qharness.clock_step_back_scenario(ctx)
+    qharness.bounded_store_pool_flush_scenario(ctx)
 
 
 def replay(ctx, case):
